@@ -25,6 +25,7 @@ META = {
 MAX_MINOR = 39
 SIB = '88888888-8888-4888-8888-888888888888'   # second child of R
 BARE = '88888888-8888-4888-8888-88888888888b'  # no inventory, traits, ...
+KOLD = 'aaaaaaaa-aaaa-4aaa-8aaa-aaaaaaaaaa0d'  # consumer written at 1.37
 SETTINGS = ['1.%d' % i for i in range(MAX_MINOR + 1)] + ['latest', None]
 BAD_VERSIONS = ['0.9', '1.40', '2.0', '1.100', '0.0']
 GARBAGE = ['x.y', '1', 'one.zero', '1.2.3']
@@ -316,6 +317,11 @@ def features(d=None):
         lambda v, s: Req('GET', '/allocations/%s' % K1, s),
         jhas(lambda j: j['consumer_type'] == 'INSTANCE'),
         jhas(lambda j: 'consumer_type' not in j))
+    add('1.38 consumer_type in GET allocations of a consumer written '
+        'before 1.38 ("unknown")', 38,
+        lambda v, s: Req('GET', '/allocations/%s' % KOLD, s),
+        jhas(lambda j: j['consumer_type'] == 'unknown'),
+        jhas(lambda j: 'consumer_type' not in j and j['allocations']))
     add('1.38 usages grouped by consumer type', 38,
         lambda v, s: Req('GET', '/usages?project_id=%s' % PROJECT, s),
         jhas(lambda j: j['usages']['INSTANCE']['consumer_count'] == 1 and
@@ -540,6 +546,11 @@ def run_shard(spec, res):
             {'resource_provider_generation': 0,
              'inventories': {'SRIOV_NET_VF': {'total': 8}}})
         assert rr.status == 200, rr.status
+        rr = svc.client.call('PUT', '/allocations/%s' % KOLD, {
+            'allocations': {E: {'resources': {'VCPU': 1}}},
+            'project_id': 'old-pj', 'user_id': 'old-us',
+            'consumer_generation': None}, '1.37')
+        assert rr.status == 204, (rr.status, rr.body)
         rr = svc.client.call('POST', '/resource_providers',
                              {'name': 'bare', 'uuid': BARE})
         assert rr.status == 200, rr.status
